@@ -35,7 +35,7 @@ func init() { drivers["c13"] = driveC13 }
 
 type c13scn struct {
 	Seed   int64    `json:"seed"`
-	Kind   string   `json:"kind"`   // idle | handshake | play | record | stuck
+	Kind   string   `json:"kind"`   // idle | handshake | play | record | stuck | tunnelabort
 	Proto  string   `json:"proto"`  // tcp | udp | mcast (play scenarios, plain)
 	Tunnel string   `json:"tunnel"` // "" | http | ws
 	TLS    bool     `json:"tls"`
@@ -44,6 +44,10 @@ type c13scn struct {
 	N      int      `json:"n"`             // readers
 	Cycles int      `json:"cycles"`        // pause / resume cycles of the readers or of the publisher before the first Close
 	Mix    []string `json:"mix,omitempty"` // play: transport of each reader when they differ (tcp | udp | mcast)
+	// tunnelabort: which half of a raw HTTP tunnel the peer aborts and how
+	// (post_rst | get_rst | post_fin | get_fin | both_rst), and whether it was playing
+	Abort   string `json:"abort,omitempty"`
+	Playing bool   `json:"playing,omitempty"`
 }
 
 func driveC13(a *args, s *vt.Sink) error {
@@ -109,6 +113,22 @@ func driveC13(a *args, s *vt.Sink) error {
 		}
 		if err := c13run(sc, s); err != nil {
 			return err
+		}
+	}
+	// a raw HTTP tunnel one half of which the peer aborts: every combination
+	rounds := 1
+	if a.tier == "thorough" {
+		rounds = 4
+	}
+	for k := 0; k < rounds; k++ {
+		for _, ab := range []string{"post_rst", "get_rst", "post_fin", "get_fin", "both_rst"} {
+			for v := 0; v < 4; v++ {
+				sc := &c13scn{Seed: rng.Int63(), Kind: "tunnelabort", Proto: "tcp", Tunnel: "http",
+					TLS: v&1 == 1, Playing: v&2 == 2, Abort: ab, Closer: "server"}
+				if err := c13run(sc, s); err != nil {
+					return err
+				}
+			}
 		}
 	}
 	return nil
@@ -186,6 +206,21 @@ func c13run(sc *c13scn, s *vt.Sink) (err error) {
 			}
 		}
 	}
+	// every connection the server accepts is tracked: after Server.Close none may be open
+	accepted := &c13accepted{}
+	prevExtra := cfg.Extra
+	cfg.Extra = func(srv *gortsplib.Server) {
+		if prevExtra != nil {
+			prevExtra(srv)
+		}
+		srv.Listen = func(network, address string) (net.Listener, error) {
+			ln, err := net.Listen(network, address)
+			if err != nil {
+				return nil, err
+			}
+			return &c13listener{Listener: ln, a: accepted}, nil
+		}
+	}
 	bd, err := bed.Start(cfg)
 	if err != nil {
 		return err
@@ -257,6 +292,58 @@ func c13run(sc *c13scn, s *vt.Sink) (err error) {
 					Header: base.Header{"Transport": th.Marshal()}})
 			}
 		}
+	case "tunnelabort":
+		p, get, post, err := bd.DialTunnelHTTP()
+		if err != nil {
+			return fmt.Errorf("c13: tunnel (%+v): %w", sc, err)
+		}
+		peers = append(peers, p)
+		r := p.Do(&base.Request{Method: base.Options, URL: bed.MustURL(bd.URL("stream"))})
+		if r.Res == nil || r.Res.StatusCode != base.StatusOK {
+			return fmt.Errorf("c13: tunnel peer: OPTIONS failed (%+v)", sc)
+		}
+		if sc.Playing {
+			th := headers.Transport{Protocol: headers.TransportProtocolTCP, InterleavedIDs: &[2]int{0, 1}}
+			r = p.Do(&base.Request{Method: base.Setup, URL: bed.MustURL(bd.URL("stream") + "/trackID=0"),
+				Header: base.Header{"Transport": th.Marshal()}})
+			if r.Res == nil || r.Res.StatusCode != base.StatusOK {
+				return fmt.Errorf("c13: tunnel peer setup failed")
+			}
+			var sh headers.Session
+			if err := sh.Unmarshal(r.Res.Header["Session"]); err != nil {
+				return fmt.Errorf("c13: tunnel peer: bad Session header")
+			}
+			r = p.Do(&base.Request{Method: base.Play, URL: bed.MustURL(bd.URL("stream")),
+				Header: base.Header{"Session": base.HeaderValue{sh.Session}}})
+			if r.Res == nil || r.Res.StatusCode != base.StatusOK {
+				return fmt.Errorf("c13: tunnel peer play failed")
+			}
+			for i := 1; i <= 20; i++ {
+				bd.Stream.WritePacketRTP(bd.Desc.Medias[0], spec.Make(1, i, 96))
+			}
+		}
+		// the abort: RST (linger 0) or FIN of the TCP connection underneath, no TLS farewell
+		abort := func(c net.Conn, rst bool) {
+			if tc, ok := c.(*net.TCPConn); ok && rst {
+				tc.SetLinger(0) //nolint:errcheck
+			}
+			c.Close()
+		}
+		switch sc.Abort {
+		case "post_rst":
+			abort(post, true)
+		case "get_rst":
+			abort(get, true)
+		case "post_fin":
+			abort(post, false)
+		case "get_fin":
+			abort(get, false)
+		default:
+			abort(post, true)
+			abort(get, true)
+		}
+		// (the server notices, or not yet, before the first Close below)
+		time.Sleep(time.Duration(rng.Intn(30)) * time.Millisecond)
 	case "stuck":
 		// a peer that sets up, plays over TCP and then never reads again
 		p, err := bd.Dial()
@@ -432,10 +519,59 @@ func c13run(sc *c13scn, s *vt.Sink) (err error) {
 		}
 		time.Sleep(5 * time.Millisecond)
 	}
-	tr.Emit("census", "goroutines", left, "ports", c13portsBusy(bd.IP, bd.Port, bd.UDPPort)+socks.open())
+	// (a connection's goroutine has ended by now; its socket is closed by then)
+	conns := accepted.open()
+	for i := 0; i < 200 && conns > 0; i++ {
+		time.Sleep(5 * time.Millisecond)
+		conns = accepted.open()
+	}
+	tr.Emit("census", "goroutines", left, "ports", c13portsBusy(bd.IP, bd.Port, bd.UDPPort)+socks.open()+conns)
 	bd.SetTrace(nil)
 	tr.Emit("end")
 	return nil
+}
+
+// c13accepted counts the connections a server accepted and has not closed yet.
+type c13accepted struct {
+	mu sync.Mutex
+	n  int
+}
+
+func (a *c13accepted) open() int {
+	a.mu.Lock()
+	defer a.mu.Unlock()
+	return a.n
+}
+
+type c13listener struct {
+	net.Listener
+	a *c13accepted
+}
+
+func (l *c13listener) Accept() (net.Conn, error) {
+	c, err := l.Listener.Accept()
+	if err != nil {
+		return nil, err
+	}
+	l.a.mu.Lock()
+	l.a.n++
+	l.a.mu.Unlock()
+	return &c13conn{Conn: c, a: l.a}, nil
+}
+
+type c13conn struct {
+	net.Conn
+	a    *c13accepted
+	once sync.Once
+}
+
+func (c *c13conn) Close() error {
+	c.once.Do(func() {
+		c.a.mu.Lock()
+		c.a.n--
+		c.a.mu.Unlock()
+	})
+	return c.Conn.Close()
 }
 
 // c13socks tracks the packet connections a client opened through its ListenPacket hook.
